@@ -4,6 +4,8 @@
 //!   m2o   A  --send-->             P        (tagged with the sender's member id)
 //!   m2m   A  --demux-->            B        (addressed member, tagged with the sender's id)
 //!   bc    P  --broadcast_closed--> B        (every member)
+//!   bcm   A  --broadcast_closed--> B        (every member of B, tagged with the sender's id)
+//! The cluster sizes are chosen by the runner (equal and UNEQUAL topologies).
 //! The payload is a nested serde type; the generated serialize / deserialize closures and the
 //! simulator's network carry it.
 use std::collections::BTreeMap;
@@ -70,6 +72,14 @@ pub mod sim {
         pub m2m_out: SimClusterReceiver<(MemberId<ClusterA>, Payload), NoOrder, ExactlyOnce>,
         pub bc_in: SimSender<Payload, TotalOrder, ExactlyOnce>,
         pub bc_out: SimClusterReceiver<Payload, TotalOrder, ExactlyOnce>,
+        pub bcm_in: SimClusterSender<Payload, TotalOrder, ExactlyOnce>,
+        pub bcm_out: SimClusterReceiver<(MemberId<ClusterA>, Payload), NoOrder, ExactlyOnce>,
+    }
+
+    /// SELF-TEST: HV_MUTANT=6 swaps in the mutated copy of the cluster-to-cluster
+    /// broadcast_closed (see `selftest_mutants::broadcast_closed_m2m_copy`).
+    pub fn mutant() -> u32 {
+        std::env::var("HV_MUTANT").ok().and_then(|s| s.parse().ok()).unwrap_or(0)
     }
 
     pub fn build<'a>(
@@ -96,8 +106,21 @@ pub mod sim {
             .broadcast_closed(&b, TCP.fail_stop().bincode())
             .sim_cluster_output();
 
+        let (bcm_in, bcm) = a.sim_input::<Payload, TotalOrder, ExactlyOnce>();
+        let bcm_out = if mutant() == 6 {
+            crate::selftest_mutants::broadcast_closed_m2m_copy(true, bcm, &b)
+                .entries()
+                .sim_cluster_output()
+        } else {
+            bcm.broadcast_closed(&b, TCP.fail_stop().bincode())
+                .entries()
+                .sim_cluster_output()
+        };
+
         (
-            NetPorts { o2m_in, o2m_out, m2o_in, m2o_out, m2m_in, m2m_out, bc_in, bc_out },
+            NetPorts {
+                o2m_in, o2m_out, m2o_in, m2o_out, m2m_in, m2m_out, bc_in, bc_out, bcm_in, bcm_out,
+            },
             a,
             b,
         )
